@@ -119,10 +119,68 @@ def tpl_graph(tpl):
     return rsmi_to_its(tpl["rsmi"], core=bool(tpl.get("core", True)))
 
 
-def sub_obj(sub):
+def sub_obj(sub, form=None):
+    """the substrate object handed to SynReactor: a SMILES string (unlabelled, labelled, partially labelled - whatever
+    the text says), an nx graph, or a SynGraph wrapper (form == 'syngraph')"""
     if isinstance(sub, dict):
-        return mol_from_json(sub["graph"])
-    return sub
+        g = mol_from_json(sub["graph"])
+    else:
+        g = sub
+    if form == "syngraph":
+        from synkit.Graph.syn_graph import SynGraph
+        from synkit.Graph.canon_graph import GraphCanonicaliser
+        if isinstance(g, str):
+            from synkit.IO.chem_converter import smiles_to_graph
+            g = smiles_to_graph(g, use_index_as_atom_map=False, drop_non_aam=False)
+        return SynGraph(g, GraphCanonicaliser())
+    return g
+
+
+def ref_graph_from_smiles(smi):
+    """Independent reading of a substrate SMILES (RDKit only, atom-map numbers ignored): node = atom index + 1 with element,
+    charge, total hydrogens, aromatic flag; edge order as a float.  Explicit [H] atoms bonded to a heavy atom are folded."""
+    import networkx as nx
+    from rdkit import Chem
+    m = Chem.MolFromSmiles(smi)
+    if m is None:
+        return None
+    m = Chem.RemoveHs(m)
+    G = nx.Graph()
+    for a in m.GetAtoms():
+        G.add_node(a.GetIdx() + 1, element=a.GetSymbol(), charge=a.GetFormalCharge(), hcount=a.GetTotalNumHs(), aromatic=a.GetIsAromatic())
+    for b in m.GetBonds():
+        G.add_edge(b.GetBeginAtomIdx() + 1, b.GetEndAtomIdx() + 1, order=b.GetBondTypeAsDouble())
+    return G
+
+
+def input_failures(case, host):
+    """clause (a) starts at the input: the graph the reactor works on must be the substrate the caller handed in"""
+    import networkx as nx
+    sub = case["sub"]
+    if isinstance(sub, dict):
+        ref = mol_from_json(sub["graph"])
+        same = (set(ref.nodes) == set(host.nodes) and
+                all((ref.nodes[n].get("element"), ref.nodes[n].get("charge", 0), ref.nodes[n].get("hcount", 0)) ==
+                    (host.nodes[n].get("element"), host.nodes[n].get("charge", 0), host.nodes[n].get("hcount", 0)) for n in ref.nodes) and
+                {frozenset(e): ref.edges[e]["order"] for e in ref.edges} == {frozenset(e): host.edges[e]["order"] for e in host.edges})
+        if not same:
+            return [("a-input", "the reactor works on a graph that differs from the substrate graph it was given (%d/%d atoms, %d/%d bonds)"
+                     % (host.number_of_nodes(), ref.number_of_nodes(), host.number_of_edges(), ref.number_of_edges()))]
+        return []
+    ref = ref_graph_from_smiles(sub)
+    if ref is None:
+        return []
+    if any(d.get("element") == "H" for _, d in host.nodes(data=True)):
+        return []          # substrate written with explicit hydrogen atoms: the folded reference does not apply
+    nm = lambda a, b: (a.get("element"), a.get("charge", 0), a.get("hcount", 0), bool(a.get("aromatic", False))) == \
+                      (b.get("element"), b.get("charge", 0), b.get("hcount", 0), bool(b.get("aromatic", False)))
+    em = lambda a, b: float(a.get("order", 1.0)) == float(b.get("order", 1.0))
+    if host.number_of_nodes() != ref.number_of_nodes() or host.number_of_edges() != ref.number_of_edges() or \
+            not nx.is_isomorphic(host, ref, node_match=nm, edge_match=em):
+        return [("a-input", "the reactor works on a substrate of %d atoms / %d bonds, the SMILES %r has %d atoms / %d bonds (or labels differ): "
+                 "every returned reaction has a different molecule on its substrate side"
+                 % (host.number_of_nodes(), host.number_of_edges(), sub, ref.number_of_nodes(), ref.number_of_edges()))]
+    return []
 
 
 # ------------------------------------------------------------------ reactor run with recording
@@ -173,8 +231,32 @@ def run_reactor(case, want_smarts=False, prune=True):
     SR.SynReactor._get_explicit_map = staticmethod(gem)
     SR.deduplicate_matches_by_automorphisms = dedup
     try:
-        R = SR.SynReactor(sub_obj(case["sub"]), tpl, invert=bool(case.get("invert", False)),
-                          strategy=case.get("strategy", "all"), **cfg)
+        opts = dict(case.get("opts") or {})
+        strategy = case.get("strategy", "all")
+        if opts.pop("strategy_enum", False):
+            from synkit.Synthesis.Reactor.strategy import Strategy
+            strategy = Strategy.from_string(strategy)
+        if opts.pop("canonicaliser", False):
+            from synkit.Graph.canon_graph import GraphCanonicaliser
+            opts["canonicaliser"] = GraphCanonicaliser()
+        via = opts.pop("via", None)
+        tform = case.get("tpl_form")
+        if tform == "string":
+            tpl_arg = case["tpl"]["rsmi"]                       # the reactor parses it itself (rsmi_to_its, full ITS)
+        elif tform == "synrule":
+            from synkit.Rule import SynRule
+            tpl_arg = SynRule(tpl, implicit_h=False) if cfg.get("implicit_temp") else SynRule(tpl)
+        else:
+            tpl_arg = tpl
+        sobj = case["_shared_sub"] if "_shared_sub" in case else sub_obj(case["sub"], case.get("sub_form"))
+        if via == "from_smiles":
+            cfg2 = dict(cfg)
+            R = SR.SynReactor.from_smiles(sobj, tpl_arg, invert=bool(case.get("invert", False)), strategy=strategy, **cfg2, **opts)
+        elif via == "positional":
+            R = SR.SynReactor(sobj, tpl_arg, bool(case.get("invert", False)), None, cfg.get("explicit_h", True),
+                              cfg.get("implicit_temp", False), strategy, **opts)
+        else:
+            R = SR.SynReactor(sobj, tpl_arg, invert=bool(case.get("invert", False)), strategy=strategy, **cfg, **opts)
         rec.R = R
         rec.host = R.graph.raw
         rec.rule = R.rule
@@ -189,11 +271,41 @@ def run_reactor(case, want_smarts=False, prune=True):
             rec.its_err = "StopIteration"
         if want_smarts:
             rec.smarts = list(R.smarts_list) if rec.its_err is None else []
+        rec.reads_ok = True
+        reads = int(case.get("reads", 0))
+        if reads > 1 and rec.its_err is None:
+            # lazily cached attributes and everything derived from them, read again and again
+            first = dict(mappings=[dict(m) for m in R.mappings], its=[_gsig(g) for g in R.its_list], smarts=list(R.smarts_list),
+                         smiles=list(R.smiles_list), count=R.mapping_count, sub=R.substrate_smiles)
+            for _ in range(reads - 1):
+                again = dict(mappings=[dict(m) for m in R.mappings], its=[_gsig(g) for g in R.its], smarts=list(R.smarts),
+                             smiles=list(R.smiles_list), count=R.mapping_count, sub=R.substrate_smiles)
+                if again != first:
+                    rec.reads_ok = False
+            rec.its_list = list(R.its_list)
+            if want_smarts:
+                rec.smarts = list(R.smarts_list)           # the oracle judges the LAST read
+        mut = case.get("mutate_results")
+        if mut and rec.its_err is None:
+            # the caller edits what it got back; nothing computed later may depend on it (see the history cases)
+            rec.its_list = [copy.deepcopy(g) for g in rec.its_list]
+            for m in R.mappings:
+                m.clear()
+            for g in R.its_list:
+                g.clear()
+            if R._smarts is not None:
+                R._smarts[:] = ["garbage>>garbage"] * len(R._smarts)
     finally:
         SR.SynReactor._glue_graph = staticmethod(orig_glue)
         SR.SynReactor._get_explicit_map = staticmethod(orig_gem)
         SR.deduplicate_matches_by_automorphisms = orig_dedup
     return rec
+
+
+def _gsig(g):
+    """value of a graph (nodes / edges with all attributes), for equality of repeated reads"""
+    return (sorted((repr(n), repr(sorted(d.items(), key=repr))) for n, d in g.nodes(data=True)),
+            sorted((repr(sorted((repr(u), repr(v)))), repr(sorted(d.items(), key=repr))) for u, v, d in g.edges(data=True)))
 
 
 # ------------------------------------------------------------------ observables (ints only)
